@@ -14,12 +14,14 @@ PIPELINES = {}
 LOADS = []
 CANON = [None]
 SNAPSHOT_HOOK = [None]
+CACHED = {}     # pre-built exception objects of the fail step (vfail.cached: k), one per case
 
 
 def reset(pipelines, canon):
     TRACE.clear()
     SLEEPS.clear()
     LOADS.clear()
+    CACHED.clear()
     PIPELINES.clear()
     PIPELINES.update(pipelines)
     CANON[0] = canon
